@@ -8,10 +8,12 @@ Definition qst := astate Qc.
 Definition q_apply := apply_event Qc 0%Qc Qcplus Qcopp.
 
 Definition of_areas (l : list (Z * Qc)) : sx := Lv (map (fun p => Lv [Zv (fst p); of_Qc (snd p)]) l).
-Definition of_state (s : qst) : sx := Lv [of_Qc (st_total s); of_Qc (st_cont s); of_areas (st_areas s); of_LZ (st_new s)].
+Definition of_state (s : qst) : sx :=
+  Lv [of_Qc (st_total s); of_Qc (st_cont s); of_areas (st_areas s); of_LZ (st_new s); Zv (if inv_checkb s then 1 else 0)].
 
 (* raw event log: (0) init, (1 id) preprocess, (2 id x to_total to_cont) evaluate_area, (3 (ids)) removed,
-   (4) reset (dimension-wise), (5 x) evaluate (dimension-wise), (6) snapshot *)
+   (4) reset (dimension-wise), (5 x) evaluate (dimension-wise), (6) snapshot, (7 id x) side evaluation,
+   (8 id) error-estimate evaluation, (10) reset_result, (11) reinit_new_objects *)
 Fixpoint replay (es : list sx) (s : qst) : option (list sx) :=
   match es with
   | [] => Some []
@@ -28,12 +30,16 @@ Fixpoint replay (es : list sx) (s : qst) : option (list sx) :=
       | Lv [Zv 3; ids] => match get_LZ ids with Some l => replay r (q_apply s (ARemove l)) | None => None end
       | Lv [Zv 4] => replay r (q_apply s AResetDW)
       | Lv [Zv 5; x] => match get_Qc x with Some x' => replay r (q_apply s (AEvalDW x')) | None => None end
+      | Lv [Zv 7; Zv id; x] => match get_Qc x with Some x' => replay r (q_apply s (ASide id x')) | None => None end
+      | Lv [Zv 8; Zv id] => replay r (q_apply s (AEstimate id))
+      | Lv [Zv 10] => replay r (q_apply s AResetTotal)
+      | Lv [Zv 11] => replay r (q_apply s AReinit)
       | _ => None
       end
   end.
 
 (* driver steps: (0 ((id (x ...)) ...)) evaluate the new areas with these parts; (1 (removed) (added)) refine;
-   (2 (x ...)) dimension-wise evaluation *)
+   (2 (x ...)) dimension-wise evaluation; (3 id x) side evaluation; (4 id) error-estimate evaluation *)
 Fixpoint lookup_parts (tbl : list (Z * list Qc)) (id : Z) : list Qc :=
   match tbl with [] => [] | (i, xs) :: r => if i =? id then xs else lookup_parts r id end.
 
@@ -50,13 +56,19 @@ Definition get_step (s : sx) : option (dstep Qc) :=
   | Lv [Zv 0; tbl] => match get_parts tbl with Some t => Some (DEvaluate (lookup_parts t)) | None => None end
   | Lv [Zv 1; rem; add] => match get_LZ rem, get_LZ add with Some r, Some a => Some (DRefine r a) | _, _ => None end
   | Lv [Zv 2; xs] => match get_LQc xs with Some x => Some (DEvaluateDW x) | None => None end
+  | Lv [Zv 3; Zv id; x] => match get_Qc x with Some x' => Some (DSide id x') | None => None end
+  | Lv [Zv 4; Zv id] => Some (DEstimate id)
   | _ => None
   end.
+
+(* the states after the evaluation steps (= the stops of the driver) *)
+Definition is_evaluation (st : dstep Qc) : bool := match st with DEvaluate _ | DEvaluateDW _ => true | _ => false end.
 
 Fixpoint run_steps_trace (clear : bool) (steps : list (dstep Qc)) (s : qst) : list sx :=
   match steps with
   | [] => []
-  | st :: r => let s' := apply_step Qc 0%Qc Qcplus Qcopp clear s st in of_state s' :: run_steps_trace clear r s'
+  | st :: r => let s' := apply_step Qc 0%Qc Qcplus Qcopp clear s st in
+               if is_evaluation st then of_state s' :: run_steps_trace clear r s' else run_steps_trace clear r s'
   end.
 
 (* combined rule; points are represented by the function value at the point (f = identity) *)
@@ -73,15 +85,17 @@ Definition get_rule (s : sx) : option (Qc * rule Qc) :=
   end.
 
 (* sub 0: (event ...)                       -> snapshots
-   sub 1: (clear (initial ids) (step ...))  -> state after every step
+   sub 1: (clear strip (initial ids) (step ...))  -> state after every evaluation step; strip = 1: of the driver WITHOUT its
+          side / estimate evaluations (Accum.strip_sides)
    sub 2: ((c ((fval w) ...)) ...)          -> (combined weights, rule applied, coefficient-weighted component sum) *)
 Definition entry_C05 (sub : Z) (a : sx) : sx :=
   match sub, a with
   | 0, Lv es => match replay es (mkA [] [] 0%Qc 0%Qc) with Some o => Lv o | None => sx_err 1 end
-  | 1, Lv [clear; ids; Lv steps] =>
-      match get_bool clear, get_LZ ids, opt_all (map get_step steps) with
-      | Some c, Some i, Some st => Lv (run_steps_trace c st (a_init Qc 0%Qc i))
-      | _, _, _ => sx_err 2
+  | 1, Lv [clear; strip; ids; Lv steps] =>
+      match get_bool clear, get_bool strip, get_LZ ids, opt_all (map get_step steps) with
+      | Some c, Some sp, Some i, Some st =>
+          Lv (run_steps_trace c (if sp then strip_sides Qc st else st) (a_init Qc 0%Qc i))
+      | _, _, _, _ => sx_err 2
       end
   | 2, Lv rules =>
       match opt_all (map get_rule rules) with
